@@ -77,7 +77,9 @@ impl Vector {
             return false;
         }
         for i in 0..self.len() {
-            if rel_diff(self[i], other[i]) > tol {
+            // rel_diff compares magnitudes only, so values of opposite sign are never close
+            let opposite_signs = (self[i] < 0. && other[i] > 0.) || (self[i] > 0. && other[i] < 0.);
+            if opposite_signs || rel_diff(self[i], other[i]) > tol {
                 return false;
             }
         }
